@@ -262,7 +262,19 @@ def _insitu(ctx, mon, shard):
         case = {"texts": texts, "direction": opts["direction"], "custom_textFn": custom}
         c0, v0 = mon.calls, mon.n_violations
         try:
-            doc = TimelineTex(data, options=opts).export()
+            tlx = TimelineTex(data, options=opts)
+            doc = tlx.export()
+            if k % 7 == 3:
+                # the document as it is WRITTEN: export(filename, build_pdf=False), read back as UTF-8
+                import os
+                import tempfile
+
+                with tempfile.TemporaryDirectory(prefix="vmon-c19-") as tmp:
+                    path = os.path.join(tmp, "t.tex")
+                    tlx.export(path, build_pdf=False)
+                    with open(path, encoding="utf-8") as fh:
+                        doc = fh.read()
+                ctx.path("macros-read-back-from-the-written-file")
         except Exception as e:
             if mon.n_violations > v0:
                 ctx.judge("insitu-export", VIOLATED, case, finding=mon.violations[-1], key="uni2tex:raised in export")
